@@ -30,10 +30,14 @@ TinyLits == {Tiny(16), Tiny(17), Tiny(20), Lit(1, 1), Lit(3, 1)}
 TinyTrees == {Bin(o, a, b) : o \in Ops, a \in TinyLits, b \in TinyLits}
         \cup {Bin(o, a, Bin(p, b, c)) : o \in {"/", "*"}, p \in {"+", "-", "*"}, a \in {Lit(3, 1)}, b \in TinyLits, c \in {Tiny(16), Tiny(17)}}
         \cup {Bin(o, Bin("/", a, b), c) : o \in {"+", "/"}, a \in {Lit(3, 1), Tiny(20)}, b \in {Tiny(16), Tiny(17)}, c \in TinyLits}
-HasTiny(x) == CASE x.t = "lit" -> "tiny" \in DOMAIN x [] x.t \in {"par", "neg"} -> HasTiny(x.e) [] x.t = "bin" -> HasTiny(x.l) \/ HasTiny(x.r)
+HasTiny(x) == CASE x.t = "lit" -> "tiny" \in DOMAIN x [] x.t \in {"par", "neg", "pos"} -> HasTiny(x.e) [] x.t = "bin" -> HasTiny(x.l) \/ HasTiny(x.r)
+\* sign prefixes stacked on each other and on parentheses, as operand on either side of an operator (`3 * - + 5`, `- + (2 - 7)`, `+ - 2 / 4`)
+SignLits == {Lit(2, 1), Lit(5, 4), Lit(7, 1)}
+Signed == UNION {{Neg(Pos(a)), Pos(Neg(a)), Pos(Pos(a)), Pos(a), Neg(Pos(Par(Bin("-", a, Lit(7, 1))))), Pos(Par(Bin("+", a, Lit(1, 2))))} : a \in SignLits}
+SignTrees == Signed \cup {Bin(o, a, b) : o \in Ops, a \in {Lit(3, 1)}, b \in Signed} \cup {Bin(o, b, a) : o \in Ops, a \in {Lit(3, 1)}, b \in Signed}
 
 VARIABLE e
-Init == e \in Trees(Depth) \cup SufTrees \cup {x \in TinyTrees : HasTiny(x)}
+Init == e \in Trees(Depth) \cup SufTrees \cup {x \in TinyTrees : HasTiny(x)} \cup SignTrees
 Next == UNCHANGED e
 
 PlusBetweenLits(toks) == {i \in 2..(Len(toks) - 1) : toks[i].k = "op" /\ toks[i].c = "+" /\ toks[i-1].k = "num" /\ toks[i+1].k = "num"}
